@@ -27,23 +27,22 @@ def escape_char(text):
                .replace('\n', r'\n')
 
 
+_UNESCAPE_CHAR = re.compile(r'\\([\\;,nN])|\r\n')
+_UNESCAPE_CHAR_BYTES = re.compile(br'\\([\\;,nN])|\r\n')
+
+
 def unescape_char(text):
     assert isinstance(text, (str, bytes))
-    # NOTE: ORDER MATTERS!
+    # One pass from left to right, so that an escaped backslash followed by
+    # "n" or "," is not unescaped a second time.
     if isinstance(text, str):
-        return text.replace('\\N', '\\n')\
-                   .replace('\r\n', '\n')\
-                   .replace('\\n', '\n')\
-                   .replace('\\,', ',')\
-                   .replace('\\;', ';')\
-                   .replace('\\\\', '\\')
+        return _UNESCAPE_CHAR.sub(
+            lambda m: '\n' if m.group(1) in (None, 'n', 'N') else m.group(1),
+            text)
     elif isinstance(text, bytes):
-        return text.replace(b'\\N', b'\\n')\
-                   .replace(b'\r\n', b'\n')\
-                   .replace(b'\\n', b'\n')\
-                   .replace(b'\\,', b',')\
-                   .replace(b'\\;', b';')\
-                   .replace(b'\\\\', b'\\')
+        return _UNESCAPE_CHAR_BYTES.sub(
+            lambda m: b'\n' if m.group(1) in (None, b'n', b'N') else m.group(1),
+            text)
 
 
 def foldline(line, limit=75, fold_sep='\r\n '):
